@@ -44,9 +44,17 @@ Plan(l, k) ==
            IF l.repo \in {"own", "unused"} THEN No(l, "already")
            ELSE IF l.repo = "none" THEN Yes([l EXCEPT !.repo = "unused"])
            ELSE Yes([l EXCEPT !.repo = "own"])
-PlanUpgrade(l, f) == IF Rank(f) < Rank(l.fmt) THEN No(l, "refused") ELSE Yes([l EXCEPT !.fmt = f])
+\* AS IMPLEMENTED: upgrade.Convert.convert loops `while controldir.needs_format_conversion(format)`; the converter to
+\* development-colo only rewrites the control directory's format marker, so when the repository at that control directory
+\* is older than 2a the condition stays true for ever: the call does not return ("diverges").  Not a C52 clause (nothing is
+\* lost), but the model has to know which calls never finish.
+Diverges(ownRepoFmt, f) == f = "development-colo" /\ ownRepoFmt \in Formats /\ Rank(ownRepoFmt) < 3
+PlanUpgrade(l, f) == IF Rank(f) < Rank(l.fmt) THEN No(l, "refused")
+                     ELSE IF Diverges(IF l.repo \in {"own", "unused"} THEN l.fmt ELSE "none", f) THEN No(l, "diverges")
+                     ELSE Yes([l EXCEPT !.fmt = f])
 PlanUpgradeShared(l, f) ==
     IF Rank(f) < Rank(l.sfmt) THEN No(l, "refused")
+    ELSE IF Diverges(l.sfmt, f) THEN No(l, "diverges")
     ELSE Yes([l EXCEPT !.sfmt = f, !.fmt = IF l.repo = "shared" /\ Rank(f) >= Rank(l.fmt) THEN f ELSE @])
 
 (* what an observer of the location can see of the content *)
